@@ -169,6 +169,9 @@ def make_observer(disp, spec, world=None):
     if t == "unscheduled":
         from job_shop_lib.dispatching import UnscheduledOperationsObserver
 
+        if sub and spec.get("cog", True):
+            # a feature observer created earlier may already have subscribed one
+            return disp.create_or_get_observer(UnscheduledOperationsObserver)
         return UnscheduledOperationsObserver(disp, subscribe=sub)
     if t == "history":
         from job_shop_lib.dispatching import HistoryObserver
